@@ -150,7 +150,7 @@ func main() {
 	c.Cov("blocks_rejected_as_predicted", total.Rejected)
 	c.Traces(int64(total.Behaviours))
 	c.Count(int64(total.Steps), int64(total.Behaviours))
-	for _, need := range []string{"v1:prove1", "v1:rev1", "v2:proof", "v2:expire", "v2:renew", "v2:rev2", "v2:rev2!sum", "v2:rev2!missedup", "v2:rev2!coll", "v1:rev1!validsum", "v1:prove1!wrongdata", "v2:proof!wrongdata"} {
+	for _, need := range []string{"v1:prove1", "v1:rev1", "v2:proof", "v2:expire", "v2:renew", "v2:rev2", "v2:rev2!sum", "v2:rev2!missedup", "v2:rev2!coll", "v1:rev1!validsum", "v1:prove1!wrongdata", "v2:proof!wrongdata", "v1:prove1!withrev"} {
 		if total.Tags[need] == 0 {
 			c.Infra("vacuity: %s never occurred", need)
 		}
